@@ -327,6 +327,7 @@ def subst_fn(f, var, val):
             s = s.replace('$%s%d' % (var, idx), parts[idx])
         return s.replace('$' + var, parts[0])
     g.name = sub(g.name)
+    g.property = sub(g.property)
     g.requires = [sub(x) for x in g.requires]
     g.ensures = [(sub(a), sub(b)) for a, b in g.ensures]
     g.assigns = [sub(x) for x in g.assigns]
